@@ -143,7 +143,7 @@ def run(ctx):
         res.floor("R16.3", "case-table rows pushed by bash add_command", len(pu), 2)
         for c in pu:
             e = expr(b, c.args[1])
-            m = re.match(r"^tuple\(to_string\(parent_fn_name\),(to_string\((get_name\(cmd\)|next\(into_iter\(get_visible_aliases\(cmd\)\)\)#Some\.0)\)),", e)
+            m = re.match(r"^tuple\((?:to_string|to_owned|from|into|clone)\(parent_fn_name\),((?:to_string|to_owned|from|into)\((get_name\(cmd\)|next\(into_iter\(get_visible_aliases\(cmd\)\)\)#Some\.0)\)),", e)
             res.check(m is not None, "R16.3", "bash-case-word-verbatim|" + ("alias" if "aliases" in e[:120] else "name"), c.where(), "case word = %s" % (m.group(1) if m else "?"),
                       "bash case-table row is built from %s: the word compared with what the user typed is not the subcommand name / alias verbatim, so that spelling never selects its level" % e[:110])
     # R16.2e filters on item iterations in the generators consult only reviewed predicates (anything else can drop an item)
